@@ -8,7 +8,7 @@ from props import funcs_common as FC
 from props.c15 import canon_obs
 from gens.programs import Opts, Gen
 
-THEOREMS = []
+THEOREMS = ['post_incr', 'pre_incr', 'post_decr', 'pre_decr', 'asgn_post_incr', 'asgn_post_decr', 'asgn_pre_incr', 'asgn_pre_decr', 'asgn_minus', 'asgn_plus', 'asgn_not', 'asgn_sizeof', 'asgn_unary_const', 'asgn_minus_const', 'cast_whole_rhs', 'cast_operands', 'cast_unary_operand', 'standalone_unary_no_effect']
 RULE = ('generated functions in which unary/cast forms (x++ ++x x-- --x, y=x++ y=++x y=x-- y=--x, y=-x, y=+x, y=!x, '
         'y=sizeof(x), y=-c, cast around an operand, cast around a whole right-hand side) occur at every statement '
         'position (top level, branches, loop bodies); each program is analysed by the real code next to its documented '
